@@ -81,7 +81,9 @@ Inv_C16 == C16
 Inv_C17 == C17
 Inv_C18 == C18
 Inv_C19 == /\ C19_Idem
-           /\ C19_Comp \/ Listed("C19", "C19-blank-wrappers", KF_C19_BlankWrappers(Commits[1].src, cfg), BehId)
+           /\ \/ C19_Comp
+              \/ Listed("C19", "C19-blank-wrappers", KF_C19_BlankWrappers(Commits[1].src, cfg), BehId)
+              \/ Listed("C19", "C19-blank-wrapper-lead", KF_C19_BlankWrapperLead(Commits[1].src, cfg), BehId)
 Inv_C20 == C20
 
 \* vacuity guard: prints an APPLIES record when the antecedent of the property holds in a state; always TRUE
